@@ -32,6 +32,13 @@ def gen_scenario(rng, profile="mixed"):
         lines.append("t%d %s" % (tid, o))
     consumer = tid
     tid += 1
+    if profile == "adders":
+        # several handle clones adding the same not-yet-watched signals at the same time
+        extra = [s for s in (40, 41, 42) if s not in watch]
+        for _ in range(rng.randint(2, 3)):
+            for sg in rng.sample(extra, rng.randint(1, 2)):
+                lines.append("t%d add %d" % (tid, sg))
+            tid += 1
     need_close = profile == "close" or "forever" in ops or rng.random() < 0.3
     if need_close:
         for _ in range(rng.randint(1, 2)):
@@ -56,11 +63,19 @@ def run_one(scenario):
         return {"scenario": scenario, "impl": out, "model": [], "schedule": [], "status": "END crash rc=%d %s" % (rc, err[-200:]), "model_end": "END ?"}
     cap = out[0].split()
     status = next((l for l in out if l.startswith("END")), "END ?")
-    full = [l for l in out[1:] if not l.startswith(("SCHEDULE", "END"))]
+    leaked = next((l for l in out if l.startswith("LEAKED")), "LEAKED []")
+    full = [l for l in out[1:] if not l.startswith(("SCHEDULE", "END", "LEAKED"))]
     obs = []
     for l in full:
         if is_registry(l) or "HEAP-IN-HANDLER" in l or "WOULD-BLOCK" in l:
             continue
+        if " mutex_" in l or " call add" in l or " ret add" in l:
+            continue   # add_signal through a handle clone: its steps are not part of the L8 model
+        body = l.split(None, 1)[1] if " " in l else ""
+        if body.startswith("H "):
+            body = body[2:]
+        if body.split(" ")[0] in ("alloc", "free", "spin", "yield_now", "drop-action") or body.startswith("sys sigaction"):
+            continue   # registry steps of an add_signal
         w = l.split()
         if len(w) > 1 and w[1] == "ret" and w[2] == "done":
             # a delivery's `ret` is logged after the (filtered) registry release steps: attach it to the
@@ -83,7 +98,7 @@ def run_one(scenario):
         canon.append(l)
     unstarted = sorted(pending.values())
     sched = [m.group(1) for m in (EVENT.match(l) for l in canon) if m]
-    dtext = "\n".join([l for l in scenario if not l.startswith("schedule")] +
+    dtext = "\n".join([l for l in scenario if not l.startswith("schedule") and " add " not in l] +
                       ["cap %s prefill %s" % (cap[1], cap[3]), "schedule " + " ".join(sched), "---"]) + "\n"
     mout = core.run_driver("iter", dtext, timeout=120)
     mobs = [l for l in mout if not l.startswith("END") and l != "---"]
@@ -91,7 +106,7 @@ def run_one(scenario):
     # the harness reports a consumer blocked for ever as deadlock; the model as blocked
     st = status.replace("END deadlock", "END blocked")
     return {"scenario": scenario, "impl": canon, "model": mobs, "schedule": sched, "status": st, "model_end": mend,
-            "cap": int(cap[1]), "prefill": int(cap[3]), "unstarted": unstarted, "full": full}
+            "cap": int(cap[1]), "prefill": int(cap[3]), "unstarted": unstarted, "full": full, "leaked": leaked}
 
 
 HLINE = re.compile(r"^t(\d+) H (.*)$")
@@ -132,7 +147,9 @@ LINE = re.compile(r"^t(\d+) (H )?(.*)$")
 
 def monitors(r):
     scenario, trace, status = r["scenario"], r["impl"], r["status"]
-    probs = {"C09": [], "C10": [], "C11": [], "C03": monitor_c03(r)}
+    probs = {"C09": [], "C10": [], "C11": [], "C03": monitor_c03(r), "C12": []}
+    if r.get("leaked", "LEAKED []") != "LEAKED []":
+        probs["C12"].append("after the instance and all its handles were dropped, an action it registered is still in the registry and still runs: %s" % r["leaked"])
     watched = set()
     for l in scenario:
         if l.startswith("setup watch"):
